@@ -9,10 +9,14 @@ TITLE = "C20 — Gallina generated from whad/dot15d4/stack/mac/__init__.py (MACM
 MODEL_IMPORT = "From Whad Require Import C20.Model."
 FILES = {"gen": "GenPy", "eq": "GenPyEq", "prop": "PropertyGenPy"}
 
-INPUTS = [["sequence_number", "seq", "N"], ["wait_counter", "wc", "nat"], ["ack is None", "no_ack", "bool"], ["ack.seqnum", "ack_seq", "N"]]
+# The locals are named by their ROLE (metavariables bound by the patterns of BIND), so that renaming them, or
+# moving the wait loop into a helper method that names them differently, does not break the selectors:
+#   $wc  : the counter that is decremented          $ack / $seq : the two sides of the loop test
+BIND = ["$wc = $wc - 1", "$ack is None or $ack.seqnum != $seq"]
+INPUTS = [["$seq", "seq", "N"], ["$wc", "wc", "nat"], ["$ack is None", "no_ack", "bool"], ["$ack.seqnum", "ack_seq", "N"]]
 LIVE = ("def live(a):\n"
-        "    return FRAG({'sequence_number': a['seq'], 'wait_counter': a['wc'],\n"
-        "                 'ack': None if a['no_ack'] else NS(seqnum=a['ack_seq'])})\n")
+        "    return FRAG({'$seq': a['seq'], '$wc': a['wc'],\n"
+        "                 '$ack': None if a['no_ack'] else NS(seqnum=a['ack_seq'])})\n")
 
 
 def gen(rng):
@@ -23,7 +27,7 @@ def gen(rng):
 
 def _it(name, select, model):
     return {"path": SRC, "qualname": "MACManager.send_data",
-            "spec": {"name": name, "mode": "expr", "select": select, "inputs": INPUTS},
+            "spec": {"name": name, "mode": "expr", "select": select, "inputs": INPUTS, "bind": BIND},
             "model": model, "gen": gen, "live": LIVE}
 
 
@@ -31,9 +35,9 @@ ITEMS = [
     # self.database.set("macDataSequenceNumber", (sequence_number + 1) % 256)
     _it("seq_next", {"arg_of": "self.database.set", "index": 1}, "(seq + 1) mod 256"),
     # wait_counter = 5 ; wait_counter = wait_counter - 1 ; if wait_counter <= 0
-    _it("wait_init", {"rhs_of": "wait_counter", "nth": 0}, "retry_budget"),
-    _it("wait_dec", {"rhs_of": "wait_counter", "nth": 1}, "(wc - 1)%nat"),
-    _it("wait_spent", {"test_on": "wait_counter"}, "(wc <=? 0)%nat"),
+    _it("wait_init", {"rhs_of": "$wc", "nth": 0}, "retry_budget"),
+    _it("wait_dec", {"rhs_of": "$wc", "nth": 1}, "(wc - 1)%nat"),
+    _it("wait_spent", {"test_on": "$wc"}, "(wc <=? 0)%nat"),
     # while ack is None or ack.seqnum != sequence_number
     _it("wait_again", {"test": "While", "nth": 0}, "no_ack || negb (ack_seq =? seq)"),
 ]
